@@ -12,6 +12,7 @@ import (
 	"github.com/getkin/kin-openapi/openapi2"
 	"github.com/getkin/kin-openapi/openapi3"
 	"github.com/oasdiff/yaml"
+	yaml3 "github.com/oasdiff/yaml3"
 )
 
 //go:embed data/sink3.json
@@ -183,12 +184,16 @@ func c03Apply(c *C03Case) (any, bool) {
 	return doc, normal
 }
 
+// the document last loaded by c03Load (version 3), for the writer that goes through the MarshalYAML methods
+var c03LastDoc *openapi3.T
+
 func c03Load(version int, data []byte) (func() ([]byte, error), error) {
 	if version == 3 {
 		doc, err := openapi3.NewLoader().LoadFromData(data)
 		if err != nil {
 			return nil, err
 		}
+		c03LastDoc = doc
 		return doc.MarshalJSON, nil
 	}
 	var d openapi2.T
@@ -267,6 +272,7 @@ func runC03(c *C03Case) (C03Obs, []c03Loc) {
 		return o, nil
 	}
 	o.Loaded = true
+	first := c03LastDoc
 	out1, err := marshal()
 	if err != nil {
 		o.Err = "marshal: " + err.Error()
@@ -298,6 +304,24 @@ func runC03(c *C03Case) (C03Obs, []c03Loc) {
 			o.Violations = append(o.Violations, "yaml-reload-fails")
 		} else if out3, err := m3(); err != nil || !sameJSONText(string(out1), string(out3)) {
 			o.Violations = append(o.Violations, "unstable-through-yaml")
+		}
+	}
+	// the YAML writer proper (the MarshalYAML methods, as yaml.Marshal(doc) uses them) writes the same document
+	if c.Version == 3 && first != nil {
+		var y2 []byte
+		var yerr error
+		if p := catchPanic(func() { y2, yerr = yaml3.Marshal(first) }); p != nil || yerr != nil {
+			o.Violations = append(o.Violations, "yaml-writer-fails")
+		} else if m4, err := c03Load(3, y2); err != nil {
+			o.Violations = append(o.Violations, "yaml-writer-output-does-not-load")
+		} else if out4, err := m4(); err != nil || !sameJSONText(string(out1), string(out4)) {
+			o.Violations = append(o.Violations, "yaml-writer-differs-from-json-writer")
+			var x, y any
+			json.Unmarshal(out1, &x)
+			json.Unmarshal(out4, &y)
+			var l, i, ch []string
+			c03Diff("", x, y, &l, &i, &ch)
+			o.Err = fmt.Sprintf("yaml writer: lost %v invented %v changed %v", l, i, ch)
 		}
 	}
 	// typed locations for the model comparison
